@@ -76,6 +76,59 @@ def _x_set(self, v):
 JJ.JacobianSolver.x = property(_x_prop.fget, _x_set)
 
 
+# ---- the residual computation of the merit function (driver op `merit`, XModel/MeritNum.lean) -------------------------
+# Every completed evaluation of the real merit function leaves one entry ["r", {...}] in TRACE: the raw target values
+# the code stored (last_res_values), the value / tol / weight / active attributes of the Target objects AS THEY ARE when
+# the call returns (read from the optimizer's own objects, not from the worker's copy of the problem), the effective
+# zero_if_met / return_scalar, and what the call returned / the last_point_within_tol it set.  Numbers travel as the
+# hex of their IEEE bits (fbits), so NaN / inf / -0.0 survive the JSON encoding.
+_merit_call_below = OO.MeritFunctionForMatch.__call__
+
+
+def _num_bits(v):
+    try:
+        return fbits(v)
+    except (TypeError, ValueError):
+        return None
+
+
+def _merit_record(mf, out, return_scalar, zero_if_met):
+    tt = list(mf.targets)
+    scalar = bool(mf.return_scalar if return_scalar is None else return_scalar)
+    rec = {"res": [_num_bits(v) for v in np.atleast_1d(mf.last_res_values)],
+           "tar": [_num_bits(t.value._value if hasattr(t.value, "_value") else t.value) for t in tt],
+           "tol": [_num_bits(t.tol) for t in tt],
+           "weight": [None if t.weight is None else _num_bits(t.weight) for t in tt],
+           "active": "".join("y" if getattr(t, "active", True) else "n" for t in tt),
+           "zim": bool(mf.zero_if_met if zero_if_met is None else zero_if_met), "scalar": scalar,
+           "within": bool(mf.last_point_within_tol),
+           # optimize_log / transform are outside the model: such an evaluation is recorded as not comparable
+           "outside": bool(any(getattr(t, "optimize_log", False) or hasattr(t, "transform") for t in tt))}
+    rec["out"] = _num_bits(out) if scalar else [_num_bits(v) for v in np.atleast_1d(out)]
+    return rec
+
+
+def _recorded_call(self, x=None, check_limits=None, return_scalar=None, zero_if_met=None):
+    out = _merit_call_below(self, x, check_limits=check_limits, return_scalar=return_scalar, zero_if_met=zero_if_met)
+    try:
+        TRACE.append(["r", _merit_record(self, out, return_scalar, zero_if_met)])
+    except Exception as e:          # an evaluation the worker cannot describe is a divergence of its own, not a crash
+        TRACE.append(["r", {"unreadable": "%s: %s" % (type(e).__name__, e)}])
+    return out
+
+
+OO.MeritFunctionForMatch.__call__ = _recorded_call
+
+
+def merit_line(e):
+    """one protocol line of the `opt` suite, op `merit`: the evaluations of the merit function recorded during one API
+    call (whether or not the call itself is inside the skeleton model), or None when there were none"""
+    evals = [t[1] for t in e["trace"] if t[0] == "r"]
+    if not evals:
+        return None
+    return {"op": "merit", "call": {"kind": e["call"][0]}, "evals": evals, "impl": {}}
+
+
 def fbits(x):
     return struct.pack("<d", float(x)).hex()
 
@@ -888,6 +941,9 @@ def main():
     failures, lines = [], []
     if a.replay:
         cases = [c for ops in json.load(open(a.replay)) for c in ops]
+        # a replay payload lists every protocol line of the history: only the `case` lines are inputs (the `call` / `merit`
+        # lines are what the worker derived from them)
+        cases = [c for c in cases if "calls" in c]
     else:
         cases = list(fixed_cases()) if a.fixed else []
         for i in range(a.n):
@@ -913,6 +969,12 @@ def main():
                 dl["hist"] = i
                 lines.append(dl)
                 stats["driver_lines"] = stats.get("driver_lines", 0) + 1
+            ml = merit_line(e)
+            if ml is not None:
+                ml["hist"] = i
+                lines.append(ml)
+                stats["merit_lines"] = stats.get("merit_lines", 0) + 1
+                stats["merit_evaluations"] = stats.get("merit_evaluations", 0) + len(ml["evals"])
     with open(a.out + ".ops.jsonl", "w") as f:
         for ln in lines:
             f.write(json.dumps(ln) + "\n")
